@@ -39,9 +39,50 @@ func (x *Exec) evalCall(n *ast.CallExpr, st *State, env *Env) Val {
 	case *ast.ParenExpr:
 	}
 	if env.info == nil {
+		// contract mode: nullary repository functions are evaluated by symbolic execution of their bodies
+		if fi := x.contractCallee(n.Fun, env); fi != nil && len(n.Args) == 0 && fi.Sig.Params().Len() == 0 {
+			return x.inlineCall(fi, st)
+		}
 		panic(unsupported("call in contract expression: " + exprString(n.Fun)))
 	}
 	return x.evalRealCall(n, st, env)
+}
+
+func (x *Exec) contractCallee(fun ast.Expr, env *Env) *FuncInfo {
+	switch f := fun.(type) {
+	case *ast.Ident:
+		if fi, ok := x.g.funcs[env.specPkgName(x)+"."+f.Name]; ok {
+			return fi
+		}
+	case *ast.SelectorExpr:
+		if id, ok := f.X.(*ast.Ident); ok {
+			if fi, ok := x.g.funcs[id.Name+"."+f.Sel.Name]; ok {
+				return fi
+			}
+		}
+	}
+	return nil
+}
+
+// inlineCall symbolically executes a parameterless, loop-annotated pure function and returns its result value.
+// Obligations arising inside are dropped here: they are checked when the function itself is verified.
+func (x *Exec) inlineCall(fi *FuncInfo, st *State) Val {
+	if v, ok := x.c.inlineCache[fi.Key]; ok {
+		return v
+	}
+	sub := &Exec{g: x.g, c: x.c, fi: fi, con: x.g.cs.Funcs[fi.Key], names: map[string]int{}, ord: map[ast.Node]int{}, loopOrd: map[ast.Node]int{}, anchors: map[ast.Stmt][]string{}, usedContracts: x.usedContracts}
+	sub.prepass()
+	sub.inlineMode = true
+	saved := x.c.inContract
+	x.c.inContract = 0
+	sub.run()
+	x.c.inContract = saved
+	if sub.inlineResult == nil {
+		panic(unsupported("inlined function " + fi.Key + " has no result"))
+	}
+	x.usedContracts[fi.Key] = true
+	x.c.inlineCache[fi.Key] = *sub.inlineResult
+	return *sub.inlineResult
 }
 
 func exprString(e ast.Expr) string {
@@ -101,8 +142,6 @@ func (x *Exec) convert(to types.Type, v Val, st *State) Val {
 		}
 	}
 	if sl, ok := to.Underlying().(*types.Slice); ok && isByte(sl.Elem()) && isString(from) {
-		x.c.declare("bytes.ofstr", "(declare-fun bytes.ofstr (Str) (Array Int (_ BitVec 8)))")
-		x.c.declare("bytes.ofstr.ax", "(assert (forall ((s Str) (j Int)) (! (=> (and (<= 0 j) (< j (gs.len s))) (= (select (bytes.ofstr s) j) (gs.at s j))) :pattern ((select (bytes.ofstr s) j)))))")
 		ref := x.allocArray(st, sortBV8, app("bytes.ofstr", v.T))
 		ln := app("gs.len", v.T)
 		return Val{T: x.c.define("sl", sortSlice, app("mkSlice", ref, "0", ln, ln)), Ty: to}
@@ -215,8 +254,6 @@ func (x *Exec) doCopy(dst, src Val, st *State, node ast.Node) Val {
 	dref, doff, dlen, _ := x.sliceParts(dst)
 	var srcArr, soff, slen string
 	if isString(src.Ty) {
-		x.c.declare("bytes.ofstr", "(declare-fun bytes.ofstr (Str) (Array Int (_ BitVec 8)))")
-		x.c.declare("bytes.ofstr.ax", "(assert (forall ((s Str) (j Int)) (! (=> (and (<= 0 j) (< j (gs.len s))) (= (select (bytes.ofstr s) j) (gs.at s j))) :pattern ((select (bytes.ofstr s) j)))))")
 		srcArr, soff, slen = app("bytes.ofstr", src.T), "0", app("gs.len", src.T)
 	} else {
 		sref, so, sl, _ := x.sliceParts(src)
@@ -295,8 +332,6 @@ func (x *Exec) evalAppend(n *ast.CallExpr, st *State, env *Env) Val {
 	if spread {
 		var srcArr, soff string
 		if isString(src.Ty) {
-			x.c.declare("bytes.ofstr", "(declare-fun bytes.ofstr (Str) (Array Int (_ BitVec 8)))")
-			x.c.declare("bytes.ofstr.ax", "(assert (forall ((s Str) (j Int)) (! (=> (and (<= 0 j) (< j (gs.len s))) (= (select (bytes.ofstr s) j) (gs.at s j))) :pattern ((select (bytes.ofstr s) j)))))")
 			srcArr, soff = app("bytes.ofstr", src.T), "0"
 		} else {
 			sref, so, _, _ := x.sliceParts(src)
@@ -356,6 +391,24 @@ func (x *Exec) evalPseudo(name string, n *ast.CallExpr, st *State, env *Env) (Va
 			return Val{T: fmt.Sprintf("(forall ((%s Int)) %s)", bv, implies(rng, body)), Ty: tBool}, true
 		}
 		return Val{T: fmt.Sprintf("(exists ((%s Int)) %s)", bv, and(rng, body)), Ty: tBool}, true
+	case "forallint": // forallint(k, body): all integers
+		vn := x.bindVar(n.Args[0])
+		bv := x.c.freshName(vn)
+		body := x.defaultType(x.eval(n.Args[1], st, env.with(vn, Val{T: bv, Ty: tInt}))).T
+		return Val{T: fmt.Sprintf("(forall ((%s Int)) %s)", bv, body), Ty: tBool}, true
+	case "itoa":
+		v := x.defaultType(x.eval(n.Args[0], st, env))
+		return Val{T: app("gs.itoa", v.T), Ty: tString}, true
+	case "fmtfloat":
+		v := x.defaultType(x.eval(n.Args[0], st, env))
+		return Val{T: app("gs.fmtfloat", v.T), Ty: tString}, true
+	case "join": // join(slice, sep): strings.Join
+		sv := x.eval(n.Args[0], st, env)
+		sep := x.eval(n.Args[1], st, env)
+		x.c.declare("gs.join", "(declare-fun gs.join ((Array Int Str) Int Int Str) Str)")
+		ref, off, ln, _ := x.sliceParts(sv)
+		h := x.heap(st, sortStr)
+		return Val{T: app("gs.join", app("select", h, ref), off, ln, sep.T), Ty: tString}, true
 	case "forallb": // forallb(b, body): all bytes
 		vn := x.bindVar(n.Args[0])
 		bv := x.c.freshName(vn)
@@ -449,6 +502,11 @@ func (x *Exec) evalPseudo(name string, n *ast.CallExpr, st *State, env *Env) (Va
 		a := x.eval(n.Args[0], st, env)
 		return Val{T: eq(a.T, "err.nil"), Ty: tBool}, true
 	}
+	switch name {
+	case "byte", "int", "float64", "string", "bool", "int64":
+		ty := x.resolveTypeExpr(n.Fun, env)
+		return x.convert(ty, x.eval(n.Args[0], st, env), st), true
+	}
 	// spec functions
 	if sf := x.g.cs.lookupSpec(env.specPkgName(x), name); sf != nil {
 		return x.applySpec(sf, n, st, env), true
@@ -486,6 +544,39 @@ func (x *Exec) applySpec(sf *SpecFunc, n *ast.CallExpr, st *State, env *Env) Val
 			v = x.materialize(v, pty)
 		}
 		args = append(args, v)
+	}
+	scalar := true
+	for _, p := range sf.Params {
+		switch x.resolveTypeText(p.Type).Underlying().(type) {
+		case *types.Basic:
+		default:
+			scalar = false
+		}
+	}
+	if sf.Body != nil && scalar {
+		fname := "spec." + sf.Name
+		if !x.c.declared[fname] {
+			ne := &Env{contract: true, names: map[string]Val{}, scopePos: token.NoPos, pkg: env.pkg}
+			var ps []string
+			for _, p := range sf.Params {
+				pty := x.resolveTypeText(p.Type)
+				pn := "sp_" + p.Name
+				ne.names[p.Name] = Val{T: pn, Ty: pty}
+				ps = append(ps, fmt.Sprintf("(%s %s)", pn, x.c.sortOf(pty)))
+			}
+			x.c.inContract++
+			v := x.eval(sf.Body, st, ne)
+			x.c.inContract--
+			if v.Ty == nil {
+				v = x.materialize(v, rty)
+			}
+			x.c.declare(fname, fmt.Sprintf("(define-fun %s (%s) %s %s)", fname, strings.Join(ps, " "), x.c.sortOf(rty), v.T))
+		}
+		var ts []string
+		for _, a := range args {
+			ts = append(ts, a.T)
+		}
+		return Val{T: app(fname, ts...), Ty: rty}
 	}
 	if sf.Body != nil {
 		// macro expansion
@@ -526,9 +617,9 @@ func (x *Exec) evalCount(n *ast.CallExpr, st *State, env *Env) Val {
 	vn := x.bindVar(n.Args[0])
 	lo := x.defaultType(x.eval(n.Args[1], st, env)).T
 	hi := x.defaultType(x.eval(n.Args[2], st, env)).T
-	x.inContract++
+	x.c.inContract++
 	key := x.defaultType(x.eval(n.Args[3], st, env.with(vn, Val{T: "$k", Ty: tInt}))).T
-	x.inContract--
+	x.c.inContract--
 	fn, ok := x.c.cntDefs[key]
 	if !ok {
 		fn = fmt.Sprintf("cnt!%d", len(x.c.cntDefs))
